@@ -351,6 +351,11 @@ def jobs(tier):
                                     pin_place={"h_pol": True, "h_call": False, "b_pol": False, "b_call": False, "s_pol": True,
                                                "s_call": False}),
                         max_wall_s=wall, weight=2))
+    # (c'') every callback handed over as a falsy callable object (only None means "not given")
+    for entry in CORE:
+        out.append(dict(name=f"ctl-falsy:{entry}", harness="rv.props.c03:h_run",
+                        params=dict(entry=entry, N=2, kinds=["ok", "exc", "res"], classes=["TRANSIENT"], abort=True, handler=True,
+                                    budget="sym", falsy=True), max_wall_s=wall, weight=1))
     if not q:
         for entry in CORE:
             out.append(dict(name=f"all:{entry}", harness="rv.props.c03:h_run",
